@@ -49,6 +49,29 @@ def readOne (m : Method) (handler : Frame → SniffData P → HOut P) (h : Handl
     let r := sniffOnce m h.filter handler h.err h.frames d
     (r.1, r.2.1, { h with frames := r.2.2.frames, err := r.2.2.err })
 
+/-- **R1–R4: what the theorems assume about one call `method(handle, 1, handler, user)` of a sniffing method on a
+    savefile handle** (`pcap_loop`, `pcap_dispatch`, the harness's exact-copy method over `pcap_next_ex`).
+    `readOne` is the function these four equations define (`readFacts_readOne`, `readFacts_unique` in
+    LemmasSession.lean), so every theorem about `next_packet` holds for any `read` that satisfies them.
+    * R1 `break_loop` set: it is cleared, nothing is read, the handler is not called, the method's break value comes back;
+    * R2 end of the file: the handler is not called; 0 comes back, or -1 once when the file ends in a broken record;
+    * R3 the installed filter rejects the next frame: the frame is dropped and reading goes on within the same call;
+    * R4 it accepts the next frame: the handler runs on it once, the frame is consumed, the method's success value
+      comes back (`>= 0`).
+    The filter, the link type and `break_loop` live in the handle and change only through `pcap_setfilter` /
+    `pcap_breakloop`; `pcap_setfilter` replaces the installed program; `pcap_compile` of something that is not a filter
+    expression fails and changes nothing (`Sniffer.cfg`). -/
+structure ReadFacts
+    (read : Method → (Frame → SniffData P → HOut P) → Handle → SniffData P → Int × HOut P × Handle) : Prop where
+  r1_break : ∀ m handler (h : Handle) d, h.brk = true →
+    read m handler h d = (m.breakRet, .ret d, { h with brk := false })
+  r2_end : ∀ m handler (h : Handle) d, h.brk = false → h.frames = [] →
+    read m handler h d = (if h.err then -1 else 0, .ret d, { h with err := false })
+  r3_reject : ∀ m handler (h : Handle) d f fs, h.brk = false → h.frames = f :: fs → h.filter f = false →
+    read m handler h d = read m handler { h with frames := fs } d
+  r4_accept : ∀ m handler (h : Handle) d f fs, h.brk = false → h.frames = f :: fs → h.filter f = true →
+    read m handler h d = (m.okRet, handler f d, { h with frames := fs })
+
 /-- the `while (data.pdu == 0 && data.packet_processed)` loop of `BaseSniffer::next_packet` on a handle -/
 def npLoop (m : Method) (handler : Frame → SniffData P → HOut P) : Nat → Handle → SniffData P → NPOut P × Handle
   | 0, h, _ => (.null, h)
